@@ -648,7 +648,7 @@ func TestVerifC13Validating(t *testing.T) {
 	h := makeTestHandler()
 	ctx := context.Background()
 
-	kit.Run(t, kit.Config{Property: "C13", Unit: "validating", Quick: 6000, Thorough: 120000,
+	kit.Run(t, kit.Config{Property: "C13", Unit: "validating", Quick: 6000, Thorough: 600000,
 		Rule: "one pod per case: QoS label in {absent, LSE, LSR, LS, BE, SYSTEM, junk}, spec.priority nil / at every class edge -1,0,+1 / class and gap centres / extremes, priority-class label (known or junk) overriding the number in 25%, 0-3 containers and 0-2 init containers (sidecars) with cpu/memory/batch/mid quantities from a boundary pool (1m, 0.0005, 500u, 1.5, 1e3, 1Gi, 1G, ...), overhead; API-server defaulting applied; 45% of the cases are updates whose old object differs in a QoS / priority-class / sub-priority / unrelated label or (tagged out-of-domain) in spec.priority; 65% of LSR/LSE pods are steered to a whole CPU sum built from fractions. distinct = (operation, update kind, QoS, priority class, pod-CPU shape, batch requested, verdict); non-trivial = priority at a class edge +-1, LSR/LSE pod with fractional or sub-milli container CPU, batch resource with non-BE QoS, or an update touching a QoS / priority-class label",
 	}, func(c *kit.Case) {
 		r := c.R
